@@ -5,7 +5,7 @@
 
 use super::Property;
 use crate::engine::{CheckResult, Ctx, Fail, StreamSpec, Tier};
-use proptest::prelude::{any, Strategy};
+
 use saphyr::{LoadableYamlNode, Scalar, Yaml, YamlEmitter};
 use saphyr_parser::{Event, Parser, Span, SpannedEventReceiver};
 use serde_json::{json, Value};
